@@ -3,7 +3,7 @@
    witnesses of the refutation theorems (closed computations checked by the kernel). *)
 From Coq Require Import PrimFloat ZArith List Bool Lia.
 Import ListNotations.
-Require Import PyBase Solver SolverFacts SolverF Tracer TracerFacts TracerF.
+Require Import PyBase Solver SolverFacts SolverF SolveAll Tracer TracerSolve TracerFacts TracerFacts2 TracerF.
 Open Scope Z_scope.
 
 (* ---------------- the scripted oracles keep the shape of the store: the premise of C17 is met by every script *)
@@ -197,3 +197,49 @@ Example tx_after_raises_untraced :
   = (mkState [[0%float; 1%float; 0%float]; [2%float; 3%float; 4%float]] [Unsolved; Unsolved; Unsolved] [-1; -1; -1]
              [EvBefore 1; EvPass 1 1; EvPass 1 2; EvAfter 1 2], Raise (SolutionError (Some 12))).
 Proof. vm_compute. reflexivity. Qed.
+
+(* ---------------- solve(trace=True) over the whole span [2000, 2001, 2002]: the labels are looked up with list.index,
+   all three periods are visited in order, each gets its own Trace (period 1: 7 snapshots, the others start, before,
+   0, 1, end), and the run equals the untraced solve() *)
+Definition tx_span : list Z := [2000; 2001; 2002].
+Definition tx_solve (a : targ) (st en : option Z) (s : fstate) (tr : ftraces) :=
+  traced_solve_all float PrimFloat.sub PrimFloat.abs PrimFloat.ltb fisfin fzero tx_cfg a false
+                   (s_ev 3 tx_scripts) (s_before 3 tx_scripts) (s_after 3 tx_scripts) Z (locate_index tx_span)
+                   tx_desc (tx_opts 0 5) tx_span st en s tr.
+
+Example tx_solve_all_result :
+  snd (tx_solve (TFlag true) None None tx_state tx_tr0)
+  = Ret (mkRes 3 [(2000, 0, true); (2001, 1, true); (2002, 2, true)])
+  /\ map (fun x => length (tr_index x)) (snd (fst (tx_solve (TFlag true) None None tx_state tx_tr0))) = [5; 7; 5]%nat.
+Proof. split; vm_compute; reflexivity. Qed.
+
+Example tx_solve_all_untraced_same :
+  let R := tx_solve (TFlag true) None None tx_state tx_tr0 in
+  (fst (fst R), snd R)
+  = solve_M float PrimFloat.sub PrimFloat.abs PrimFloat.ltb fisfin fzero (s_ev 3 tx_scripts) (s_before 3 tx_scripts)
+            (s_after 3 tx_scripts) Z (locate_index tx_span) tx_desc (tx_opts 0 5) tx_span None None tx_state.
+Proof. vm_compute. reflexivity. Qed.
+
+(* the premise of the solve() theorems is met: trace_t cannot fail at any of the positions solve() will visit *)
+Example tx_solve_all_ready :
+  solve_targets float Z (locate_index tx_span) tx_desc (tx_opts 0 5) tx_span None None = [0; 1; 2] /\
+  forall t, In t [0; 1; 2] -> ready float tx_cfg (TFlag true) false t (vals_of tx_state) tx_tr0.
+Proof.
+  split; [vm_compute; reflexivity|].
+  intros t [<-|[<-|[<-|[]]]]; (split;
+    [repeat constructor; eexists; (split; [reflexivity|]); eexists; reflexivity
+    |eexists; split; [reflexivity|]; right; exact I]).
+Qed.
+
+(* an unknown start label: KeyError, nothing solved, nothing traced (no targets) *)
+Example tx_solve_all_bad_label :
+  tx_solve (TFlag true) (Some 1999) None tx_state tx_tr0 = ((tx_state, tx_tr0), Raise KeyError)
+  /\ solve_targets float Z (locate_index tx_span) tx_desc (tx_opts 0 5) tx_span (Some 1999) None = [].
+Proof. split; vm_compute; reflexivity. Qed.
+
+(* the hypotheses of the accumulation theorem are met by a second traced solve with the same name *)
+Example tx_accumulate_hyps :
+  is_empty float (nth 1 tx_tr1 tx_e) = false /\ width_ok float (nth 1 tx_tr1 tx_e) (length (names_of tx_cfg 2 (TName 0)))
+  /\ snd (f_traced_solve_t tx_scripts tx_cfg (TName 0) false tx_desc (tx_opts 0 5) 1 tx_s1 tx_tr1) = Ret true
+  /\ length (tr_index (nth 1 (snd (fst (f_traced_solve_t tx_scripts tx_cfg (TName 0) false tx_desc (tx_opts 0 5) 1 tx_s1 tx_tr1))) tx_e)) = 12%nat.
+Proof. repeat split; vm_compute; reflexivity. Qed.
